@@ -62,11 +62,12 @@ def check(name, case, rec):
     um = gmat.build(name, case["params"])
     rng = np.random.default_rng(case["F"]["fseed"])
     batch = tuple(case["F"]["batch"])
-    F = gmat.make_F(rng, batch, e["lam"], sep=True)
+    Qc = gmat.coaxial_Q(case["F"], batch) if e["nstate"] else None
+    F = gmat.make_F(rng, batch, e["lam"], sep=True, Q=Qc)
     sv0 = gmat.virgin_state(name, batch)
     sv = sv0
     if e["nstate"]:
-        sv = gmat.drive_history(name, um, sv0, F, case["F"]["hist"], batch, e["lam"])
+        sv = gmat.drive_history(name, um, sv0, F, case["F"]["hist"], batch, e["lam"], Q=Qc)
     noarg = e["nstate"] == 0 and e["backend"] != "hand"
 
     def P_of(F_, s=None):
@@ -89,10 +90,11 @@ def check(name, case, rec):
         tol = 1e-6
     if e["reg"]:
         # documented backend regularisation (eigenvalues perturbed by delta = 1e-4): deviations up to 20 delta of the stiffness
-        tol = 20 * e["reg"] * float(np.abs(A).max()) / sc
+        # ... or of the un-projected principal stress scale where the model cancels large principal terms (gmat.reg_scale)
+        tol = 20 * e["reg"] * max(float(np.abs(A).max()), gmat.reg_scale(name, case["params"])) / sc
     tag = ""
     if e["nstate"]:
-        tag = "@history" if not np.array_equal(sv, sv0) else "@virgin"
+        tag = ("@history-coaxial" if Qc is not None else "@history") if not np.array_equal(sv, sv0) else "@virgin"
     # objectivity
     PR = P_of(np.einsum("ij,jk...->ik...", R, F))
     rec.close("objectivity P(RF)=R P(F)" + tag, float(np.abs(PR - np.einsum("ij,jk...->ik...", R, P)).max()) / sc, tol, {"params": case["params"]})
